@@ -622,6 +622,18 @@ def c10_job(chk, rng, i):
             s = inp["sources"][0] + inp["sources"][s1]
             cut = rng.below(len(s) + 1)
             inp["sources"][0], inp["sources"][s1] = s[:cut], s[cut:]
+    string_first = (i % 5 == 3 and not include_mode)
+    if string_first:
+        # the program starts on a string (yy_scan_bytes) and goes on with files: at the end of the
+        # string yywrap() points yyin at a file and returns 0
+        case["driver"]["init"] = [("open", 0), ("scan_bytes", 1, 0)] + \
+            [op for op in case["driver"].get("init", []) if op[0] == "begin"]
+        case["wrap"] = [("next", 0)] + case["wrap"]
+        for inp in inputs:
+            # text made before any rule was added; long enough for the buffer made for it to
+            # hold any token of the files that follow (a scanner that cannot enlarge its buffer -
+            # REJECT, variable trailing context - would stop there with its documented error)
+            inp["strings"] = [(b"".join(inp["sources"]) * 8 + b"a b c d e f g h i j " * 20)[:300]]
     fl = rotate(i, FLAV3)
     tb = rotate(i // 3, ["", "-Cem", "-C", "-Cfe", "-CFe", "-Ca"])
     cfg = {"flavour": fl, "flexargs": lib.tables_args(tb, 8),
@@ -634,6 +646,8 @@ def c10_job(chk, rng, i):
         feats.append("include_mode")
     if soft:
         feats.append("soft_end_of_input")
+    if string_first:
+        feats.append("string_then_files")
     return {"case": case, "configs": [cfg], "inputs": inputs, "skip_if": dangerous,
             "expect_build": std_refusals(tb), "features": feats}
 
